@@ -45,6 +45,10 @@ def gen_cases(seed, tier):
     # the model is asked for both modes of each input: strict twin cases
     twins = [PC.mk_case(c['desc']['ctx'], c['desc']['s'], False, c['desc']['origin']) for c in cases[::3]]
     cases += twins
+    # a context whose macros take comma-separated list arguments (real code only: that parser is outside the model)
+    import docgen
+    for s in docgen.exhaustive(docgen.SYM_COMMASEP, 3 if tier == 'quick' else 4):
+        cases.append(PC.mk_case('commasep', s, True, 'commasep'))
     return cases
 
 
